@@ -249,6 +249,12 @@ func prefixOther(p []byte) byte {
 
 func (g *G) optionsBytes() []byte {
 	r := g.R
+	if g.valid {
+		if r.coin(0.5) {
+			return []byte{0, 0}
+		}
+		return encMapping(g.genPairs(r.rng(1, 3)))
+	}
 	switch r.intn(6) {
 	case 0, 1:
 		return []byte{0, 0}
@@ -262,7 +268,12 @@ func (g *G) optionsBytes() []byte {
 	}
 }
 
-func (g *G) count16() int { return g.R.pick(0, 1, 1, 2, 2, 3, 15, 16, 16, 17) }
+func (g *G) count16() int {
+	if g.valid {
+		return g.R.pick(1, 2, 3, 16)
+	}
+	return g.R.pick(0, 1, 1, 2, 2, 3, 15, 16, 16, 17)
+}
 
 // encLS2Body: everything before the signature.
 func (g *G) encLS2Body(id *identity, transient *signer, forge string) (body []byte, signerUsed *signer) {
@@ -271,7 +282,7 @@ func (g *G) encLS2Body(id *identity, transient *signer, forge string) (body []by
 	if transient != nil {
 		flags |= 1
 	}
-	if r.coin(0.05) {
+	if r.coin(0.05) && !g.valid {
 		flags |= 8 << uint(r.intn(12)) // reserved bits
 	}
 	body = cat(id.bytes, u32(g.ts()), u16(r.pick(0, 1, 600, 65535)), u16(flags))
@@ -282,11 +293,14 @@ func (g *G) encLS2Body(id *identity, transient *signer, forge string) (body []by
 	}
 	body = append(body, g.optionsBytes()...)
 	nk := r.pick(1, 1, 1, 2, 16, 0, 17)
+	if g.valid {
+		nk = r.pick(1, 2)
+	}
 	body = append(body, byte(nk))
 	for i := 0; i < nk; i++ {
 		t := r.pick(4, 4, 0, 5, 6, 7, 1, 65280)
 		kl, ok := specCrypto[t]
-		if !ok || r.coin(0.05) {
+		if !ok || (r.coin(0.05) && !g.valid) {
 			kl = r.rng(0, 40)
 		}
 		body = cat(body, u16(t), u16(kl), r.bytes(kl))
@@ -325,6 +339,14 @@ func genSignedStructs(g *G, count int) {
 		if tr != nil {
 			forge = g.forgeKind()
 		}
+		// the first rounds are fixed shapes, so that every run contains, for each structure, an Ed25519 identity
+		// with a genuine offline block and with each kind of forged one
+		forced := i < 8
+		g.valid = forced
+		forcedForge := []string{"zero", "self", "other", ""}[i%4]
+		if forced {
+			id, tr, forge = g.newIdentity(7, 4, false, nil), g.newSigner(7), forcedForge
+		}
 		body, sg := g.encLS2Body(id, tr, forge)
 		for _, c := range g.adversary([]byte{3}, body, sg, id.sg) {
 			g.gen = "ls2-" + c.tag + "-off:" + offTag(tr, forge)
@@ -339,6 +361,9 @@ func genSignedStructs(g *G, count int) {
 		if tr != nil {
 			forge = g.forgeKind()
 		}
+		if forced {
+			id, tr, forge = g.newIdentity(7, 4, false, nil), g.newSigner(7), forcedForge
+		}
 		flags := r.pick(0, 0, 2)
 		sg = id.sg
 		mb := cat(id.bytes, u32(g.ts()), u16(r.pick(0, 600, 65535)))
@@ -350,9 +375,16 @@ func genSignedStructs(g *G, count int) {
 		}
 		mb = append(mb, g.optionsBytes()...)
 		ne := r.pick(1, 1, 2, 3, 16, 0, 17)
+		if g.valid {
+			ne = r.pick(1, 2, 3)
+		}
 		mb = append(mb, byte(ne))
 		for j := 0; j < ne; j++ {
-			mb = cat(mb, r.bytes(32), []byte{byte(r.pick(1, 3, 5, 5, 3, 2))}, u32(g.ts()), []byte{byte(r.intn(256))}, g.optionsBytes())
+			et := byte(r.pick(1, 3, 5, 5, 3, 2))
+			if g.valid {
+				et = byte(r.pick(1, 3, 5))
+			}
+			mb = cat(mb, r.bytes(32), []byte{et}, u32(g.ts()), []byte{byte(r.intn(256))}, g.optionsBytes())
 		}
 		for _, c := range g.adversary([]byte{7}, mb, sg, id.sg) {
 			g.gen = "meta-" + c.tag + "-off:" + offTag(tr, forge)
@@ -367,10 +399,17 @@ func genSignedStructs(g *G, count int) {
 		if tr != nil {
 			forge = g.forgeKind()
 		}
+		if forced {
+			bl, tr, forge = g.newSigner(7), g.newSigner(7), forcedForge
+		}
 		sg = bl
-		eb := cat(u16(bl.typ), bl.pub, u32(g.ts()), u16(r.pick(1, 600, 65535, 0)))
+		eexp := r.pick(1, 600, 65535, 0)
+		if g.valid {
+			eexp = 600
+		}
+		eb := cat(u16(bl.typ), bl.pub, u32(g.ts()), u16(eexp))
 		ef := r.pick(0, 0, 2)
-		if r.coin(0.05) {
+		if r.coin(0.05) && !g.valid {
 			ef |= 4
 		}
 		if tr != nil {
@@ -380,6 +419,9 @@ func genSignedStructs(g *G, count int) {
 			eb = cat(eb, u16(ef))
 		}
 		il := r.pick(61, 61, 62, 100, 300, 60, 1, 0)
+		if g.valid {
+			il = r.pick(61, 100)
+		}
 		eb = cat(eb, u16(il), r.bytes(il))
 		for _, c := range g.adversary([]byte{5}, eb, sg, bl) {
 			g.gen = "els-" + c.tag + "-off:" + offTag(tr, forge)
@@ -435,6 +477,7 @@ func genSignedStructs(g *G, count int) {
 			g.gen += tag
 			g.emit("readRI", hx(b))
 		}
+		g.valid = false
 		if i < 2 || !g.quick() && i < 20 {
 			// offline-keys fixtures: the values returned with an error have the flag set but no block yet
 			oid := g.newIdentity(7, 4, false, nil)
@@ -585,6 +628,6 @@ func genSmallStructs(g *G, count int) {
 func init() {
 	suites["STRUCT"] = func(g *G) {
 		genSmallStructs(g, g.n(300, 8000))
-		genSignedStructs(g, g.n(40, 1500))
+		genSignedStructs(g, g.n(100, 1500))
 	}
 }
